@@ -138,6 +138,7 @@ class Ctx:
         self.counter = 0
         self.fields_assigned = []  # order of first assignment in __init__
         self.asserts = []
+        self.depth = 0
         self.partial_self = None  # during __init__: dict field -> lean local
 
     def fresh(self, base):
@@ -256,6 +257,40 @@ class Tr:
             return self.call(e)
         if isinstance(e, ast.List) and not e.elts:
             return "[]", "EmptyList"
+        if isinstance(e, ast.IfExp):
+            tst = e.test
+            if isinstance(tst, ast.Compare) and len(tst.ops) == 1 and isinstance(tst.ops[0], (ast.Is, ast.IsNot)) \
+                    and isinstance(tst.left, ast.Name) and isinstance(tst.comparators[0], ast.Constant) \
+                    and tst.comparators[0].value is None and c.locals.get(tst.left.id, (None, None))[1] == "OptK":
+                # `p if p is not None else d` on an Optional parameter: a match that narrows p in the `some` branch
+                name = tst.left.id
+                some_e, none_e = (e.body, e.orelse) if isinstance(tst.ops[0], ast.IsNot) else (e.orelse, e.body)
+                npre = len(self.pre)
+                saved = dict(c.locals)
+                opt = c.locals[name][0]
+                c.locals[name] = (f"{name}_v", "K")
+                a, ta = self.expr(some_e)
+                c.locals = saved
+                b, tb = self.expr(none_e)
+                if len(self.pre) != npre:
+                    c.err(e, "random draw or helper call inside a conditional expression")
+                return f"(match {opt} with | some {name}_v => {cast(a, ta, 'K', c, e)} | none => {cast(b, tb, 'K', c, e)})", "K"
+            # `a if cond else b`: only the chosen branch is evaluated in Python; both are pure here (draws are rejected below)
+            cnd, tc = self.expr(e.test)
+            if tc != "Bool":
+                c.err(e, "condition of a conditional expression is not boolean")
+            npre = len(self.pre)
+            a, ta = self.expr(e.body)
+            b, tb = self.expr(e.orelse)
+            if len(self.pre) != npre:
+                c.err(e, "random draw or helper call inside a conditional expression")
+            if ta == tb:
+                return f"(if {cnd} then {a} else {b})", ta
+            num = ("K", "Nat", "IntLit", "FloatLit")
+            if ta in num and tb in num:
+                want = "Nat" if {ta, tb} <= {"Nat", "IntLit"} else "K"
+                return f"(if {cnd} then {cast(a, ta, want, c, e)} else {cast(b, tb, want, c, e)})", want
+            c.err(e, f"branches of a conditional expression have types {ta} and {tb}")
         if isinstance(e, ast.Subscript):
             c.err(e, "subscript reads are not part of the kernel subset")
         c.err(e, "unsupported expression")
@@ -339,6 +374,9 @@ class Tr:
         args = e.args
         if e.keywords and name not in ("random.choices",):
             c.err(e, "keyword arguments in kernel expressions")
+        if isinstance(f, ast.Attribute) and isinstance(f.value, ast.Name) and f.value.id == "self" and not self.in_init \
+                and fld(f.attr) not in FIELD_TYPES:
+            return self.inline_helper_expr(e, e)
         if name == "len" and len(args) == 1:
             v, t = self.expr(args[0])
             if t not in ("LX", "LY"):
@@ -465,6 +503,8 @@ class Tr:
             if isinstance(f, ast.Attribute) and f.attr == "__init__" and isinstance(f.value, ast.Call) \
                     and ast.unparse(f.value.func) == "super":
                 return self.inline_super(call, s)
+            if isinstance(f, ast.Attribute) and isinstance(f.value, ast.Name) and f.value.id == "self" and not self.in_init:
+                return self.inline_helper_stmt(call, s)
             c.err(s, "unsupported expression statement")
         c.err(s, "unsupported statement")
 
@@ -637,11 +677,125 @@ class Tr:
             c.err(s, "return of a value inside a state-updating method")
         return self.stmt(s)
 
+    # ---- whole blocks with early returns (continuation-passing) ---------------------------------------------------
+    @staticmethod
+    def always_returns(stmts):
+        if not stmts:
+            return False
+        last = stmts[-1]
+        if isinstance(last, ast.Return):
+            return True
+        if isinstance(last, ast.If):
+            return Tr.always_returns(last.body) and Tr.always_returns(last.orelse)
+        return False
 
-def uses_random(fn):
+    @staticmethod
+    def has_return(stmts):
+        return any(isinstance(n, ast.Return) for st in stmts for n in ast.walk(st))
+
+    def block(self, stmts):
+        """lines of a statement list of a state-updating method, ENDING with the resulting state expression; a `return` ends the
+        method: when a branch of an `if` returns, the statements after the `if` go into the other branch only"""
+        c = self.ctx
+        stmts = list(stmts)
+        if not stmts:
+            return [self.state_tuple()]
+        s, rest = stmts[0], stmts[1:]
+        if isinstance(s, ast.Return):
+            if s.value is not None and not (isinstance(s.value, ast.Name) and s.value.id == "self"):
+                c.err(s, "return of a value inside a state-updating method")
+            return [self.state_tuple()]
+        if isinstance(s, ast.If) and (self.has_return(s.body) or self.has_return(s.orelse)):
+            cond, t = self.expr(s.test)
+            if t != "Bool":
+                c.err(s, "condition is not boolean")
+            pre = self.flush([])
+            saved = dict(c.locals)
+            tl = self.block(list(s.body) + ([] if self.always_returns(s.body) else rest))
+            c.locals = dict(saved)
+            el = self.block(list(s.orelse) + ([] if self.always_returns(s.orelse) else rest))
+            c.locals = dict(saved)
+            return pre + [f"if {cond} then"] + ["  " + x for x in tl] + ["else"] + ["  " + x for x in el]
+        return self.block_stmt(s) + self.block(rest)
+
+    # ---- calls of private helper methods of the same class are inlined ------------------------------------------
+    def helper(self, name):
+        fn, frel, fcls = self.ctx.src.find_method(self.ctx.cname, name)
+        return fn, frel, fcls
+
+    def bind_helper_args(self, fn, call, node):
+        c = self.ctx
+        params = [a.arg for a in fn.args.args[1:]] + [a.arg for a in fn.args.kwonlyargs]
+        bound = {}
+        for pn, a in zip(params, call.args):
+            bound[pn] = self.expr(a)
+        for kw in call.keywords:
+            bound[kw.arg] = self.expr(kw.value)
+        pos = fn.args.args[1:]
+        for a, d in zip(pos[len(pos) - len(fn.args.defaults):], fn.args.defaults):
+            if a.arg not in bound:
+                bound[a.arg] = self.expr(d)
+        for pn in params:
+            if pn not in bound:
+                c.err(node, f"missing argument {pn} in the call of helper {fn.name}")
+        lines = self.flush([])
+        new_locals = {}
+        for pn, (v, t) in bound.items():
+            if t == "IntLit":
+                v, t = cast(v, t, "Nat", c, node), "Nat"
+            ln = c.fresh("arg_" + pn)
+            lines.append(f"let {ln} := {v}")
+            new_locals[pn] = (ln, t)
+        return lines, new_locals
+
+    def inline_helper_stmt(self, call, node):
+        """`self._helper(args)` as a statement: the helper's body transforms the state"""
+        c = self.ctx
+        fn, frel, fcls = self.helper(call.func.attr)
+        if fn is None or c.depth > 4:
+            c.err(node, "unsupported expression statement")
+        lines, new_locals = self.bind_helper_args(fn, call, node)
+        saved = (c.locals, c.rel, self.cur_class)
+        c.locals, c.rel, self.cur_class = new_locals, frel, fcls
+        c.depth += 1
+        body = self.block([st for st in fn.body])
+        c.depth -= 1
+        c.locals, c.rel, self.cur_class = saved
+        tup = self.state_tuple()
+        return lines + [f"let {tup} :="] + ["  " + x for x in body]
+
+    def inline_helper_expr(self, call, node):
+        """`self._helper(args)` as an expression: straight-line helper ending in `return <expr>`; its statements are hoisted"""
+        c = self.ctx
+        fn, frel, fcls = self.helper(call.func.attr)
+        if fn is None or c.depth > 4:
+            c.err(node, "unsupported call")
+        body = [st for st in fn.body if not (isinstance(st, ast.Expr) and isinstance(st.value, ast.Constant))]
+        if not body or not isinstance(body[-1], ast.Return) or body[-1].value is None or self.has_return(body[:-1]):
+            c.err(node, "helper used as an expression must be straight-line code ending in `return <expr>`")
+        lines, new_locals = self.bind_helper_args(fn, call, node)
+        saved = (c.locals, c.rel, self.cur_class)
+        c.locals, c.rel, self.cur_class = new_locals, frel, fcls
+        c.depth += 1
+        for st in body[:-1]:
+            lines += self.block_stmt(st)
+        v, t = self.expr(body[-1].value)
+        lines += self.flush([])
+        c.depth -= 1
+        c.locals, c.rel, self.cur_class = saved
+        self.pre = lines + self.pre
+        return v, t
+
+
+def uses_random(fn, src=None, cname=None, depth=0):
     for n in ast.walk(fn):
         if isinstance(n, ast.Call) and ast.unparse(n.func).startswith("random."):
             return True
+        if src is not None and depth < 4 and isinstance(n, ast.Call) and isinstance(n.func, ast.Attribute) \
+                and isinstance(n.func.value, ast.Name) and n.func.value.id == "self":
+            h, _, _ = src.find_method(cname, n.func.attr)
+            if h is not None and h is not fn and uses_random(h, src, cname, depth + 1):
+                return True
     return False
 
 
@@ -760,7 +914,7 @@ def translate_class(src, cname, fl=False):
         ctx.rel = frel
         ctx.locals = {}
         ctx.partial_self = None
-        ctx.uses_rnd_method = uses_random(fn)
+        ctx.uses_rnd_method = uses_random(fn, src, cname)
         tr = Tr(ctx, in_init=False, fl=fl)
         tr.cur_class = fcls
         params = []
@@ -770,15 +924,12 @@ def translate_class(src, cname, fl=False):
             t = PARAM_TYPES[a.arg]
             ctx.locals[a.arg] = (a.arg, t)
             params.append(f"({a.arg} : {LEAN_TY[t]})")
-        lines = []
-        for st in fn.body:
-            lines += tr.block_stmt(st)
+        lines = tr.block(fn.body)
         rnd_param = " (rnd : Rnd K)" if ctx.uses_rnd_method else ""
         ret = f"{sname} {tyapp} × Rnd K" if ctx.uses_rnd_method else f"{sname} {tyapp}"
         body_defs.append(f"def {m} (self : {sname} {tyapp}) {' '.join(params)}{rnd_param} : {ret} :=")
         for ln in lines:
             body_defs.append("  " + ln)
-        body_defs.append("  (self, rnd)" if ctx.uses_rnd_method else "  self")
         body_defs.append("")
 
     # ---- read-only properties
@@ -793,13 +944,14 @@ def translate_class(src, cname, fl=False):
         tr.cur_class = fcls
         stmts = [s for s in fn.body if not (isinstance(s, ast.Expr) and isinstance(s.value, ast.Constant))]
         lines = []
+        # a property may read another property of self (self.var etc.), in its locals as well as in the returned expression
+        pe = PropExpr(tr, src, cname)
         for st in stmts[:-1]:
-            lines += tr.block_stmt(st)
+            lines += pe.wrap(lambda st=st: tr.block_stmt(st))
         last = stmts[-1]
         if not isinstance(last, ast.Return) or last.value is None:
             raise Unsupported(f"{frel}:{last.lineno}: property {p} does not end in `return <expr>`")
-        # a property may call another property of self: self.var etc.
-        v, t = PropExpr(tr, src, cname).expr(last.value)
+        v, t = pe.expr(last.value)
         v = cast(v, t, "K", ctx, last)
         body_defs.append(f"def {p} (self : {sname} {tyapp}) : K :=")
         for ln in lines:
@@ -841,6 +993,9 @@ class PropExpr:
         self.tr, self.src, self.cname = tr, src, cname
 
     def expr(self, e):
+        return self.wrap(lambda: self.tr.expr(e))
+
+    def wrap(self, thunk):
         tr = self.tr
         orig = tr.field_read
 
@@ -854,7 +1009,7 @@ class PropExpr:
             return orig(name, node)
         tr.field_read = field_read
         try:
-            return tr.expr(e)
+            return thunk()
         finally:
             tr.field_read = orig
 
@@ -934,7 +1089,12 @@ def generate(repo, outdir):
     report = {}
     for cname in EMIT:
         for flv in ((False, True) if cname in ("WelfordTracker", "ExponentialSmoothingTracker") else (False,)):
-            text, rels = translate_class(src, cname, fl=flv)
+            try:
+                text, rels = translate_class(src, cname, fl=flv)
+            except Unsupported as ex:
+                # one class outside the subset must not take the others down: keep the previous file, record the error
+                report[("Fl" if flv else "") + cname] = {"sources": [FILES[cname]], "sha256": "", "changed": False, "error": str(ex)}
+                continue
             sha = ",".join(src.sha[c][:16] for c in src.mro(cname))
             ns = ".Fl" if flv else ""
             full = HEADER.format(srcs=", ".join(rels), sha=sha, ns=ns) + text + f"\n\nend Ixai.Gen{ns}\n"
@@ -945,7 +1105,11 @@ def generate(repo, outdir):
                     fh.write(full)
             report[("Fl" if flv else "") + cname] = {"sources": rels, "sha256": sha, "changed": old != full}
     for kname in EXPR_KERNELS:
-        text, rels, sha = translate_expr_kernel(repo, kname)
+        try:
+            text, rels, sha = translate_expr_kernel(repo, kname)
+        except Unsupported as ex:
+            report[kname] = {"sources": [EXPR_KERNELS[kname]["file"]], "sha256": "", "changed": False, "error": str(ex)}
+            continue
         full = HEADER.format(srcs=", ".join(rels), sha=sha, ns="") + text + "\n\nend Ixai.Gen\n"
         fname = os.path.join(outdir, kname + ".lean")
         old = open(fname).read() if os.path.exists(fname) else None
@@ -968,4 +1132,4 @@ if __name__ == "__main__":
         print(f"UNSUPPORTED {ex}")
         sys.exit(3)
     for k, v in rep.items():
-        print(k, "changed" if v["changed"] else "unchanged", v["sources"][0])
+        print(k, ("UNSUPPORTED " + v["error"]) if v.get("error") else ("changed" if v["changed"] else "unchanged"), v["sources"][0])
